@@ -358,6 +358,16 @@ func (e *Engine) specBuiltin(env *Env, name string, ex *SExpr) (Val, bool) {
 		if env.st != nil && env.st.ctxDone[c.S] {
 			return Val{S: "true", T: tBool}, true
 		}
+		if env.doneSym != nil {
+			// postcondition of a callee, evaluated at a call site: whether the callee saw the context expire is a fresh
+			// boolean; the caller's path is split on it after the call
+			if s, ok := env.doneSym[c.S]; ok {
+				return Val{S: s, T: tBool}, true
+			}
+			s := env.st.freshConst("calleeDone", "Bool")
+			env.doneSym[c.S] = s
+			return Val{S: s, T: tBool}, true
+		}
 		return Val{S: "false", T: tBool}, true
 	case "fresh":
 		// fresh(x): the reference x was allocated during the call (it is above the allocation frontier of the pre-state)
